@@ -29,8 +29,9 @@ func (k Keeper) CreateClient(
 		return err
 	}
 
-	// check if consensus state is nil in case the created client is Localhost
-	if consensusState.ClientType() != exported.TSS {
+	// a TSS client has no consensus states (its latest height is the zero height), whatever consensus state
+	// the proposal carries
+	if clientState.ClientType() != exported.TSS {
 		k.SetClientConsensusState(ctx, chainName, clientState.GetLatestHeight(), consensusState)
 		k.Logger(ctx).Info(
 			"client created at height",
@@ -74,7 +75,10 @@ func (k Keeper) UpgradeClient(
 	}
 
 	k.SetClientState(ctx, chainName, newClientState)
-	k.SetClientConsensusState(ctx, chainName, newClientState.GetLatestHeight(), newConsensusState)
+	// as in CreateClient: a TSS client has no consensus states
+	if newClientState.ClientType() != exported.TSS {
+		k.SetClientConsensusState(ctx, chainName, newClientState.GetLatestHeight(), newConsensusState)
+	}
 
 	k.Logger(ctx).Info(
 		"client state upgraded",
@@ -123,7 +127,7 @@ func (k Keeper) ToggleClient(
 		return err
 	}
 	// as in CreateClient: a TSS client has no consensus states (its latest height is the zero height)
-	if newConsensusState.ClientType() != exported.TSS {
+	if newClientState.ClientType() != exported.TSS {
 		k.SetClientConsensusState(ctx, chainName, newClientState.GetLatestHeight(), newConsensusState)
 	}
 
